@@ -1,7 +1,11 @@
+#[cfg(sonic_rs_verif)]
+use crate::verif::AtomicPtr;
+#[cfg(not(sonic_rs_verif))]
+use std::sync::atomic::AtomicPtr;
 use std::{
     fmt::{self, Debug, Display},
     str::from_utf8_unchecked,
-    sync::atomic::{AtomicPtr, Ordering},
+    sync::atomic::Ordering,
 };
 
 use faststr::FastStr;
